@@ -64,6 +64,19 @@ def check(ctx, cfg):
     r5_funnel(ctx, cfg)
     r6_no_hidden_state(ctx, cfg)
     r7_errors(ctx, cfg)
+    r8_layering(ctx, cfg)
+
+
+def r8_layering(ctx, cfg):
+    """who may open, commit or bypass a transaction"""
+    F = cfg.facts
+    R = "C01.R8"
+    q.who_may_call(ctx, R, F, TRANSACTIONAL, {"app::App::execute_multi", "app::App::wasm_sudo", "app::App::sudo", "wasm::WasmKeeper::execute_submsg",
+                                              "wasm::WasmKeeper::with_storage"}, "a new transaction boundary needs a decision")
+    q.who_may_call(ctx, R, F, "transactions::RepLog::commit", {TRANSACTIONAL}, "only `transactional` may replay a log onto its base")
+    q.who_may_call(ctx, R, F, "transactions::StorageTransaction::new", {TRANSACTIONAL}, "caches are created by `transactional` only")
+    q.who_may_call(ctx, R, F, "transactions::StorageTransaction::prepare", {TRANSACTIONAL}, "caches are consumed by `transactional` only")
+    q.who_may_call(ctx, R, F, "transactions::Op::apply", {"transactions::RepLog::commit"}, "ops are applied by commit only")
 
 
 # ------------------------------------------------------------------------- R1
